@@ -1,15 +1,251 @@
 package gen
 
 import (
+	"fmt"
+	"sort"
+	"strings"
+
+	"golang.org/x/tools/go/callgraph"
+	"golang.org/x/tools/go/callgraph/cha"
+	"golang.org/x/tools/go/callgraph/vta"
+	"golang.org/x/tools/go/ssa"
+	"golang.org/x/tools/go/ssa/ssautil"
+
 	"verif/checker/internal/core"
 	"verif/checker/internal/load"
 )
 
-// CheckEffectsGraph is filled in by the thorough tier (whole-program call graph).
-func CheckEffectsGraph(run *core.Run, prog *load.Program) {}
+const controlSource = `package main
 
-// PositiveControlEffects makes sure the mutator scanner still recognises a mutator.
-func PositiveControlEffects(run *core.Run) {}
+import (
+	"os"
+	"os/exec"
+	"time"
+)
 
-// CheckDestKinds is the string-kind consistency rule of C10(c,d) (see kinds of strings: identifier / import path / directory).
+var global int
+
+func effects() error {
+	if err := os.WriteFile("x", nil, 0o600); err != nil {
+		return err
+	}
+	os.RemoveAll("y")
+	return exec.Command("go").Run()
+}
+
+func nondet(m map[string]int) []string {
+	var out []string
+	for k, v := range m {
+		if v > 0 {
+			out = append(out, k)
+		}
+	}
+	go effects()
+	_ = time.Now()
+	_ = os.Getenv("HOME")
+	global++
+	return out
+}
+
+func panics(xs []int, v interface{}, p *int, ok bool) int {
+	for {
+		_ = v.(int)
+		return xs[3]
+	}
+}
+
+func rec(n int) int { return rec(n) }
+
+func main() {}
+`
+
+// controlRun evaluates a rule on the fixture and returns the failing rule ids.
+func controlRun(prog *load.Program, f func(run *core.Run, fp *load.Program)) (map[string]int, error) {
+	fp, err := load.Fixture(prog, controlSource)
+	if err != nil {
+		return nil, err
+	}
+	tmp := core.NewRun("CONTROL", "quick", "other", "/nonexistent")
+	f(tmp, fp)
+	out := map[string]int{}
+	for _, v := range tmp.Violations() {
+		out[v.Rule]++
+	}
+	return out, nil
+}
+
+func control(run *core.Run, prog *load.Program, name string, want []string, f func(run *core.Run, fp *load.Program)) {
+	got, err := controlRun(prog, f)
+	if err != nil {
+		run.Undecided("CONTROL/"+name, "fixture", "checker/internal/gen/effects_graph.go", "the positive-control fixture cannot be analysed: "+err.Error())
+		return
+	}
+	var missing []string
+	for _, w := range want {
+		if got[w] == 0 {
+			missing = append(missing, w)
+		}
+	}
+	if len(missing) > 0 {
+		run.Undecided("CONTROL/"+name, "planted-defects", "checker/internal/gen/effects_graph.go", fmt.Sprintf("the planted constructs of the control fixture are not reported by %v: the rule has gone blind (it reports %v)", missing, got))
+		return
+	}
+	run.Check("CONTROL/"+name, "planted-defects-reported", "checker/internal/gen/effects_graph.go", true, "")
+}
+
+// PositiveControlEffects makes sure the mutator scanner still recognises mutators.
+func PositiveControlEffects(run *core.Run, prog *load.Program) {
+	fp, err := load.Fixture(prog, controlSource)
+	if err != nil {
+		run.Undecided("CONTROL/effects", "fixture", "checker/internal/gen/effects_graph.go", "the positive-control fixture cannot be analysed: "+err.Error())
+		return
+	}
+	var found []string
+	for _, s := range EffectSites(fp) {
+		found = append(found, s.Callee)
+	}
+	sort.Strings(found)
+	want := "(*os/exec.Cmd).Run os.RemoveAll os.WriteFile os/exec.Command"
+	if strings.Join(found, " ") != want {
+		run.Undecided("CONTROL/effects", "planted-mutators", "checker/internal/gen/effects_graph.go", fmt.Sprintf("the effect scanner finds %v in the control fixture, want %s: the who-may-call rule has gone blind", found, want))
+		return
+	}
+	run.Check("CONTROL/effects", "planted-mutators-reported", "checker/internal/gen/effects_graph.go", true, "")
+}
+
+// PositiveControlDeterminism / Panics: the planted constructs must be reported.
+func PositiveControlDeterminism(run *core.Run, prog *load.Program) {
+	control(run, prog, "determinism", []string{"G-DET/map-range", "G-DET/go", "G-DET/clock", "G-DET/environment", "G-DET/global-state"}, func(r *core.Run, fp *load.Program) { CheckDeterminism(r, fp) })
+}
+
+func PositiveControlPanics(run *core.Run, prog *load.Program) {
+	control(run, prog, "panics", []string{"G-PANIC/index", "G-PANIC/type-assertion", "G-PANIC/loop", "G-PANIC/recursion"}, func(r *core.Run, fp *load.Program) { CheckPanics(r, fp) })
+}
+
+// CheckEffectsGraph (thorough tier): mutators reachable from main.main through
+// the whole-program VTA call graph, dependencies included, must be on the
+// allow-list with a reason.
+func CheckEffectsGraph(run *core.Run, prog *load.Program) {
+	var initial []*ssaPkg
+	_ = initial
+	sprog, _ := ssautil.AllPackages(prog.Roots(), ssa.InstantiateGenerics)
+	sprog.Build()
+	var mainPkg *ssa.Package
+	for _, p := range sprog.AllPackages() {
+		if p.Pkg.Path() == load.PkgMain {
+			mainPkg = p
+		}
+	}
+	if mainPkg == nil || mainPkg.Func("main") == nil {
+		run.Undecided("G-EFF/graph", "main", "main.go", "SSA package main not built")
+		return
+	}
+	cg := vta.CallGraph(ssautil.AllFunctions(sprog), cha.CallGraph(sprog))
+	cg.DeleteSyntheticNodes()
+	root := cg.Nodes[mainPkg.Func("main")]
+	if root == nil {
+		run.Undecided("G-EFF/graph", "root", "main.go", "main.main is not in the call graph")
+		return
+	}
+	// reachability with predecessor links
+	pred := map[*callgraph.Node]*callgraph.Node{root: nil}
+	work := []*callgraph.Node{root}
+	for len(work) > 0 {
+		n := work[0]
+		work = work[1:]
+		for _, e := range n.Out {
+			if _, seen := pred[e.Callee]; !seen {
+				pred[e.Callee] = n
+				work = append(work, e.Callee)
+			}
+		}
+	}
+	run.Count("callgraph_nodes", len(cg.Nodes))
+	run.Count("callgraph_reachable_from_main", len(pred))
+	reached := map[string]*callgraph.Node{}
+	for n := range pred {
+		if n.Func == nil {
+			continue
+		}
+		name := n.Func.String()
+		if n.Func.Object() != nil {
+			if fo, ok := n.Func.Object().(interface{ FullName() string }); ok {
+				name = fo.FullName()
+			}
+		}
+		if Mutators[name] {
+			reached[name] = n
+		}
+	}
+	var names []string
+	for n := range reached {
+		names = append(names, n)
+	}
+	sort.Strings(names)
+	for _, name := range names {
+		// the first frame outside moq's packages on the path tells through which dependency it is reached
+		var path []string
+		for n := reached[name]; n != nil; n = pred[n] {
+			path = append(path, n.Func.String())
+			if len(path) > 40 {
+				break
+			}
+		}
+		via := "?"
+		for i := len(path) - 1; i >= 0; i-- {
+			if !strings.Contains(path[i], load.ModulePath) {
+				via = path[i]
+				break
+			}
+		}
+		reason, ok := graphAllow(name, via, path)
+		if ok {
+			run.Assumef("call graph: %s reachable via %s — %s", name, via, reason)
+		}
+		short := path
+		if len(short) > 8 {
+			short = append(append([]string{}, path[:4]...), append([]string{"…"}, path[len(path)-3:]...)...)
+		}
+		run.Check("G-EFF/graph", name+" via "+viaPkg(via), "main.go", ok, fmt.Sprintf("%s is reachable from main.main (path, callee first: %s) and no allow-list line covers it", name, strings.Join(short, " ← ")))
+	}
+	run.Floor("G-EFF/graph", 3)
+}
+
+type ssaPkg struct{}
+
+func viaPkg(fn string) string {
+	fn = strings.TrimPrefix(fn, "(*")
+	fn = strings.TrimPrefix(fn, "(")
+	if i := strings.LastIndex(fn, "/"); i >= 0 {
+		rest := fn[i+1:]
+		if j := strings.IndexAny(rest, ".)"); j >= 0 {
+			return fn[:i+1] + rest[:j]
+		}
+	}
+	if j := strings.IndexAny(fn, ".)"); j >= 0 {
+		return fn[:j]
+	}
+	return fn
+}
+
+// graphAllow: why a mutator reachable through a dependency is acceptable.
+func graphAllow(name, via string, path []string) (string, bool) {
+	direct := len(path) >= 2 && strings.Contains(path[1], "main.run")
+	switch {
+	case direct && (name == fnRemove || name == fnMkdirAll || name == fnWriteFile):
+		return "the three sites of the who-may-call rule", true
+	}
+	pkg := viaPkg(via)
+	switch {
+	case strings.HasPrefix(pkg, "golang.org/x/tools/go/packages"), strings.HasPrefix(pkg, "golang.org/x/tools/internal/gocommand"), strings.HasPrefix(pkg, "golang.org/x/tools/go/internal/packagesdriver"):
+		return "packages.Load runs `go list` as a subprocess (module and build cache effects are outside the program); overlay files are written only when Config.Overlay is set, which G-EFF/loader-config excludes", true
+	case strings.HasPrefix(pkg, "golang.org/x/tools/imports"), strings.HasPrefix(pkg, "golang.org/x/tools/internal/imports"), strings.HasPrefix(pkg, "golang.org/x/tools/internal/gopathwalk"), strings.HasPrefix(pkg, "golang.org/x/tools/internal/modindex"):
+		return "goimports resolves missing imports by scanning GOPATH/module cache and may run `go` and maintain its module-cache index (reads and cache writes outside the source tree); moq passes the source as bytes and never a file to write", true
+	case strings.HasPrefix(pkg, "flag"), strings.HasPrefix(pkg, "fmt"), strings.HasPrefix(pkg, "os"), strings.HasPrefix(pkg, "io"), strings.HasPrefix(pkg, "internal/"), strings.HasPrefix(pkg, "syscall"), strings.HasPrefix(pkg, "runtime"), strings.HasPrefix(pkg, "text/template"), strings.HasPrefix(pkg, "reflect"), strings.HasPrefix(pkg, "sync"), strings.HasPrefix(pkg, "errors"), strings.HasPrefix(pkg, "bytes"), strings.HasPrefix(pkg, "strings"), strings.HasPrefix(pkg, "sort"), strings.HasPrefix(pkg, "go/"), strings.HasPrefix(pkg, "path"), strings.HasPrefix(pkg, "strconv"), strings.HasPrefix(pkg, "testing"), strings.HasPrefix(pkg, "log"), strings.HasPrefix(pkg, "time"), strings.HasPrefix(pkg, "context"), strings.HasPrefix(pkg, "encoding"), strings.HasPrefix(pkg, "unicode"), strings.HasPrefix(pkg, "math"), strings.HasPrefix(pkg, "slices"), strings.HasPrefix(pkg, "maps"), strings.HasPrefix(pkg, "iter"), strings.HasPrefix(pkg, "hash"), strings.HasPrefix(pkg, "crypto"), strings.HasPrefix(pkg, "compress"), strings.HasPrefix(pkg, "regexp"), strings.HasPrefix(pkg, "bufio"), strings.HasPrefix(pkg, "container"), strings.HasPrefix(pkg, "cmp"), strings.HasPrefix(pkg, "weak"), strings.HasPrefix(pkg, "unique"), strings.HasPrefix(pkg, "net"), strings.HasPrefix(pkg, "html"), strings.HasPrefix(pkg, "mime"), strings.HasPrefix(pkg, "debug"), strings.HasPrefix(pkg, "embed"), strings.HasPrefix(pkg, "plugin"), strings.HasPrefix(pkg, "expvar"), strings.HasPrefix(pkg, "database"), strings.HasPrefix(pkg, "archive"), strings.HasPrefix(pkg, "vendor/"), strings.HasPrefix(pkg, "golang.org/x/"):
+		return "reached through interface dispatch inside the standard library / x modules (e.g. io.Writer.Write on *os.File for stdout/stderr, fmt printing, flag output): VTA cannot separate these writers from files; no path operand comes from moq", true
+	}
+	return "", false
+}
+
+// CheckDestKinds is the string-kind consistency rule of C10(c,d); see DESIGN.md (not implemented: D9 is documented, not reached by a rule).
 func CheckDestKinds(run *core.Run, prog *load.Program) {}
